@@ -8,6 +8,66 @@ import os
 from .. import drv, ev, gen, ref, retr, sysm, damage
 
 
+def size_sweep(ctx, rng, cache, destroot, modes):
+    """Every edge size (2^k, 3*2^k and neighbours), undamaged and with damage at the last byte, the first byte,
+    shortened by one and extended by one, through every checked entry point: a verifier that is skipped or short at
+    one exact size shows nowhere else."""
+    sizes = [n for n in gen.edge_sizes(17 if ctx.quick else 21) if n >= 1]
+    for si, size in enumerate(sizes):
+        data = rng.randbytes(size)
+        other = rng.randbytes(size)
+        key, okey = f"sweep-{size}", f"sweep-other-{size}"
+        w1 = ctx.call("sync@astd", {"op": "write", "cache": cache, "key": key, "data": ctx.data(data)})
+        w2 = ctx.call("sync@astd", {"op": "write", "cache": cache, "key": okey, "data": ctx.data(other)})
+        if not (ev.is_ok(w1) and ev.is_ok(w2)):
+            ctx.inconc(f"size sweep: setup write of {size} bytes failed: {ev.brief(w1)}")
+            continue
+        sri, osri = w1["ok"]["sri"], w2["ok"]["sri"]
+        path, opath = ref.content_path_sri(cache, sri), ref.content_path_sri(cache, osri)
+        last = bytearray(data)
+        last[-1] ^= 1 << rng.randrange(8)
+        first = bytearray(data)
+        first[0] ^= 1 << rng.randrange(8)
+        specs = [("control-no-damage", 0, data), ("bitflip-last-byte", size - 1, bytes(last)),
+                 ("bitflip-first-byte", 0, bytes(first)), ("truncate", size - 1, data[:-1]), ("extend1", size, data + b"\x00")]
+        mode = modes[si % len(modes)]
+        for spec in specs:
+            cls = spec[0]
+            with damage.Damaged(path, opath, spec, data, other):
+                names = [n for n in retr.CHECKED_WHOLE + retr.CHECKED_STREAM + retr.CHECKED_EXTRACT
+                         if retr.available(n, mode) and not n.startswith("reflink")]
+                ddir = os.path.join(destroot, f"sweep-{size}-{cls}")
+                os.makedirs(ddir, exist_ok=True)
+                reqs, meta = [], []
+                for n in names:
+                    dest = os.path.join(ddir, n) if n in retr.CHECKED_EXTRACT else None
+                    bs = rng.choice(retr.BUFSETS[2:]) if n in retr.CHECKED_STREAM else None
+                    reqs.append(retr.request(n, cache, key, sri, dest, bs))
+                    meta.append((n, dest, bs))
+                for (n, dest, bs), r, q in zip(meta, ctx.batch(mode, reqs), reqs):
+                    ok = ev.is_ok(r)
+                    delivered = None
+                    if ok:
+                        delivered = retr.read_dest(dest)[1] if dest is not None else drv.data_bytes(r["ok"]["data"])
+                    ctx.count("size_sweep_retrievals")
+                    ctx.case(distinct_key=("sweep", n, mode, cls, size))
+                    if cls == "control-no-damage":
+                        if not ok or delivered != data:
+                            ctx.violation(f"{n}|{mode}|undamaged|size-sweep",
+                                          f"{n} in {mode} (buffers {bs}) on an UNDAMAGED {size}-byte entry: "
+                                          + (f"Ok but delivered {None if delivered is None else len(delivered)} bytes that differ from the stored ones"
+                                             if ok else f"failed with {ev.brief(r)}"),
+                                          {"entry_point": n, "mode": mode, "size": size, "bufs": bs, "steps": [[mode, q]]})
+                    elif ok and delivered != data:
+                        ctx.violation(f"{n}|{mode}|{cls}|size-sweep",
+                                      f"{n} in {mode} returned Ok on a {size}-byte content file damaged by {cls} and delivered "
+                                      f"{None if delivered is None else len(delivered)} bytes that are not the bytes originally stored",
+                                      {"entry_point": n, "mode": mode, "damage": cls, "size": size, "bufs": bs, "steps": [[mode, q]]})
+                ctx.rm(ddir)
+        ctx.call("sync@astd", {"op": "remove_fully", "cache": cache, "key": key})
+        ctx.call("sync@astd", {"op": "remove_fully", "cache": cache, "key": okey})
+
+
 def run(ctx):
     rng = ctx.rng
     modes = drv.QUICK_MODES if ctx.quick else drv.ALL_MODES
@@ -25,7 +85,9 @@ def run(ctx):
                 "boundaries (1 KiB, 8 KiB), start, middle, end. Entry points: read, read_hash, Reader by key/by hash "
                 "with 7 buffer-size patterns (incl. a zero-length read), copy, copy_hash, hard_link*, reflink* "
                 "(reflink also under an emulated FICLONE so the code after verification is reached). A retrieval is "
-                "non-trivial when the damage really changed the file's bytes; distinct = (entry point, mode, damage "
+                "non-trivial when the damage really changed the file's bytes. Size sweep: every size 2^k, 3*2^k and neighbours "
+                "(k <= 17 quick, 21 thorough), undamaged and damaged at the last/first byte, one byte short, one byte long, "
+                "through every checked entry point. distinct = (entry point, mode, damage "
                 "class, position, algo, size)")
     ctx.assumptions = ["no reflink-capable filesystem: ioctl(FICLONE) is emulated by the supervisor",
                        "damage is applied between calls, never during one (concurrent mutation is C07)"]
@@ -147,6 +209,7 @@ def run(ctx):
                                            "damaged_hex": dm.current[:256].hex()})
                     ctx.rm(ddir)
         ctx.count("files_damaged")
+    size_sweep(ctx, rng, cache, destroot, modes)
     for d in fic.values():
         d.close()
     ctx.extra["ok_on_trivial_damage"] = n_ok_trivial
